@@ -12,3 +12,4 @@ for seed in "$@"; do
     [ $rc -ne 0 ] && echo "$out" | grep -A1 -E '^VIOLATION|HARNESS' | head -6 | cut -c1-500
   done
 done
+exit 0
